@@ -166,6 +166,8 @@ def crop_cases(draw, max_side):
     dens = draw(st.sampled_from([1, 3, 8]))
     elem = st.one_of(*([st.just(bg)] * dens + [st.sampled_from(zpool)]))
     zflat = draw(st.lists(elem, min_size=h * w, max_size=h * w))
+    if all(v == "nan" for v in zflat):
+        zflat[draw(st.integers(0, h * w - 1))] = bg   # at least one zone id present (domain: some requested zone exists)
     present = [v for v in dict.fromkeys(zflat) if v != "nan"]
     ids = draw(st.lists(st.sampled_from(present + [77]), min_size=1, max_size=4, unique=True))
     if not any(i in present for i in ids):
